@@ -611,6 +611,17 @@ def check(repo, rep, funcs, rule="R-EFFECT"):
     rep.rule(rule, "no write (attribute/subscript store, container mutator, mutating callee) reaches an object that may alias "
                    "a parameter or a module-level table/constant; non-mutator methods do not write to self")
     sites = set("%s.%s" % f for f in funcs)
+    # helpers introduced by a refactoring (not in the frozen inventory) in the modules of the family belong to it
+    from .symx import inventory
+    mods = {f[0] for f in funcs}
+    for mn in mods:
+        m_ = repo.modules.get(mn)
+        inv = inventory().get(mn)
+        if m_ is None or inv is None:
+            continue
+        for q_ in m_.functions:
+            if q_ not in inv["functions"] and "<locals>" not in q_:
+                sites.add("%s.%s" % (mn, q_))
     bad = set()
     for mu in an.mutations:
         if mu.site not in sites:
